@@ -32,6 +32,7 @@ PROPS = {
              "compared byte-for-byte with the model encoder; in addition batches of 1..4 records go through the REAL publisher goroutine "
              "(startSocket, pulse port and summary port) and a ZMQ SUB socket must receive exactly one two-part message per record, in order, "
              "equal to that record's header and payload. Non-trivial = every case (each decodes a full message); distinct by input line.",
+        lean_files=["C14", "ComposeWire"],
         nontrivial=[],
         jobs=seeds(1, 4),
         trusted_base=["float32()/float64 conversions and bit patterns are taken from Go's math package (opaque bit strings in the model)",
